@@ -105,6 +105,13 @@ fn main() {
                     continue;
                 }
                 let request = line.split(" :: ").next().unwrap().trim();
+                // converter checks (C15): the parsed source and the implementation's conversion are carried by the
+                // recorded lines themselves; a replay re-evaluates the model and the verdict on them
+                let op = request.split(' ').next().unwrap_or("");
+                if ["SRCT", "HFA", "HFV", "HFM", "SPT", "SPP", "KEEPS", "CONVTT", "CONVTK", "CONVHF", "CONVSP", "IMPLEQ", "BYTETAB", "BYTEPIECE"].contains(&op) {
+                    writeln!(f, "{}", line).unwrap();
+                    continue;
+                }
                 match run_line(&mut state, request) {
                     Some((request, answer)) if answer.is_empty() => writeln!(f, "{}", request).unwrap(),
                     Some((request, answer)) => writeln!(f, "{} :: {}", request, answer).unwrap(),
